@@ -28,6 +28,7 @@ var violCount = map[string]int{}
 // for these every generated value is also a correspondence case in both directions.  The others are checked by
 // the direct oracle only.
 var inModel = map[string]bool{
+	"T0x0200": true, "T0x0704": true, "T0x0801": true,
 	"T0x0001": true, "T0x0002": true, "T0x0100": true, "T0x0102": true, "T0x0800": true, "T0x0805": true, "T0x1003": true,
 	"T0x1005": true, "T0x1205": true, "T0x1206": true, "T0x1210": true, "T0x1211": true, "T0x1212": true,
 	"P0x8001": true, "P0x8003": true, "P0x8100": true, "P0x8103": true, "P0x8104": true, "P0x8800": true, "P0x8801": true,
@@ -76,7 +77,7 @@ func c07(c *Ctx) {
 	if !c.Quick() {
 		per = 1500
 	}
-	for _, t := range BodyTypes {
+	for _, t := range append(append([]*BodyType{}, BodyTypes...), LocBodyTypes...) {
 		if !t.TwoWay {
 			continue
 		}
@@ -93,10 +94,72 @@ func c07(c *Ctx) {
 			}
 		}
 	}
+	wellFormedBodies(c, g)
 	signIDFinding(c, g)
 	paramsSweep(c, g)
 	helpers(c, g)
 	gbkSweep(c)
+}
+
+// wellFormedBodies: the other half of the property, literally: bodies laid out here from the standard (independent of
+// Encode) must be accepted and Encode(Parse(b)) must give b back.  Location family (blocks without additional
+// information) and fixed layouts with list counts.
+func wellFormedBodies(c *Ctx, g *Gen) {
+	n := 150
+	if !c.Quick() {
+		n = 5000
+	}
+	check := func(name string, body []byte) {
+		t := BodyTypeByName(name)
+		h := t.New(0)
+		req := fmt.Sprintf("brt %s %d %d %s", name, 2, 0, Hx(body))
+		out := ParseInto(h, 2, Exact(body))
+		c.Count("wellformed:" + name)
+		if out != "ok" {
+			viol(c, Violation{Signature: "C07/wellformed-rejected/" + name, What: "a well-formed body (laid out from the standard) is rejected", Input: req, Observed: out, Required: "ok"})
+			c.Eval(req, true)
+			return
+		}
+		b2, p := SafeEncode(h)
+		if p || !bytes.Equal(b2, body) {
+			viol(c, Violation{Signature: "C07/reencode-wellformed/" + name, What: "Encode(Parse(b)) differs from the well-formed body b", Input: req, Observed: Hx(b2), Required: Hx(body)})
+		}
+		if inModel[name] {
+			c.Do(req, true)
+		} else {
+			c.Eval(req, true)
+		}
+	}
+	be16 := func(x uint16) []byte { return []byte{byte(x >> 8), byte(x)} }
+	be32 := func(x uint32) []byte { return []byte{byte(x >> 24), byte(x >> 16), byte(x >> 8), byte(x)} }
+	for i := 0; i < n; i++ {
+		check("T0x0200", g.LocBlock())
+		k := 1 + c.Rng.Intn(5)
+		body := append(be16(uint16(k)), byte(c.Rng.Intn(2)))
+		for j := 0; j < k; j++ {
+			body = append(append(body, 0, 28), g.LocBlock()...)
+		}
+		check("T0x0704", body)
+		check("T0x0801", append(append(append(be32(c.Rng.Uint32()), g.Bytes(4)...), g.LocBlock()...), g.Bytes(c.Rng.Intn(20))...))
+		// counted lists: serial, count, items
+		k = c.Rng.Intn(6)
+		body = append(be16(uint16(c.Rng.Intn(65536))), byte(k))
+		for j := 0; j < k; j++ {
+			body = append(body, be16(uint16(c.Rng.Intn(65536)))...)
+		}
+		check("P0x8003", body)
+		body = append(append(be16(uint16(c.Rng.Intn(65536))), byte(c.Rng.Intn(256))), be16(uint16(k))...)
+		for j := 0; j < k; j++ {
+			body = append(body, be32(c.Rng.Uint32())...)
+		}
+		check("T0x0805", body)
+		name := g.Bytes(c.Rng.Intn(12))
+		body = append(append([]byte{byte(len(name))}, name...), byte(c.Rng.Intn(5)), byte(c.Rng.Intn(2)), byte(k))
+		for j := 0; j < k; j++ {
+			body = append(append(body, be32(c.Rng.Uint32())...), be32(c.Rng.Uint32())...)
+		}
+		check("P0x9212", body)
+	}
 }
 
 // signIDFinding: the recorded finding C07/sign-id-leading-nul.  Alarm-sign terminal ids that begin with NUL are in
